@@ -2,6 +2,7 @@ import Generated.Funcs
 import DracoModel.Octahedron
 import DracoModel.RansSymbol
 import DracoModel.Varint
+import DracoModel.Geometry
 /-
   DracoProofs.GeneratedCore — tactics and C-arithmetic lemmas for the equality proofs, and the functions of
   core/bit_utils.h, core/math_utils.h, compression/entropy/rans_symbol_coding.h (used by C17, C08; the octahedron and
@@ -60,6 +61,39 @@ theorem wrapI32_id (x : Int) (h1 : -2^31 ≤ x) (h2 : x < 2^31) : wrapI32 x = x 
 theorem wrapI64_id (x : Int) (h1 : -2^63 ≤ x) (h2 : x < 2^63) : wrapI64 x = x := by unfold wrapI64; omega
 theorem wrapU32_id (x : Int) (h1 : 0 ≤ x) (h2 : x < 2^32) : wrapU32 x = x := by unfold wrapU32; omega
 theorem wrapU64_id (x : Int) (h1 : 0 ≤ x) (h2 : x < 2^64) : wrapU64 x = x := by unfold wrapU64; omega
+
+theorem wrapU8_id (x : Int) (h1 : 0 ≤ x) (h2 : x < 2^8) : wrapU8 x = x := by unfold wrapU8; omega
+
+theorem cAnd32_255 (x : Int) : cAnd 32 x 255 = x % 256 := by
+  unfold cAnd pat
+  have : ((255:Int) % 2^32).toNat = 2^8 - 1 := by decide
+  rw [this, Nat.and_two_pow_sub_one_eq_mod]
+  omega
+theorem cAnd32_127 (x : Int) : cAnd 32 x 127 = x % 128 := by
+  unfold cAnd pat
+  have : ((127:Int) % 2^32).toNat = 2^7 - 1 := by decide
+  rw [this, Nat.and_two_pow_sub_one_eq_mod]
+  omega
+theorem cAnd64_127 (x : Int) : cAnd 64 x 127 = x % 128 := by
+  unfold cAnd pat
+  have : ((127:Int) % 2^64).toNat = 2^7 - 1 := by decide
+  rw [this, Nat.and_two_pow_sub_one_eq_mod]
+  omega
+theorem cOr32_128 (a : Int) (h0 : 0 ≤ a) (h1 : a < 128) : cOr 32 a 128 = a + 128 := by
+  unfold cOr pat
+  have e1 : ((128:Int) % 2^32).toNat = 2^7 * 1 := by decide
+  have e2 : (a % 2^32).toNat = a.toNat := by congr 1; omega
+  rw [e1, e2, Nat.or_comm, ← Nat.two_pow_add_eq_or_of_lt (by omega)]; omega
+theorem cOr_zero (w : Nat) (a : Int) (h0 : 0 ≤ a) (h1 : a < 2^w) : cOr w 0 a = a := by
+  unfold cOr pat
+  have e2 : (a % 2^w).toNat = a.toNat := by congr 1; exact Int.emod_eq_of_lt h0 h1
+  simp [e2]; omega
+
+/-- closed C constant expressions (`1 << 14`, `(1 << 7) - 1`, …) and shifts by literals -/
+macro "c_const1" : tactic =>
+  `(tactic| ((try simp only [cShl, cShr, Int.reduceToNat, Int.reducePow, Int.reduceMul, Int.reduceSub, Int.reduceAdd] at *);
+             (try simp (disch := omega) only [wrapI32_id, wrapI64_id, wrapU32_id, wrapU64_id] at *)))
+macro "c_const" : tactic => `(tactic| (c_const1; c_const1; c_const1))
 
 /-- leaves: drop the reductions to the C type that provably do nothing (innermost first), unfold the remaining C
     operations to `%`/`/` by literals, split the remaining `if`s, `omega` -/
@@ -130,4 +164,15 @@ theorem MostSignificantBit_eq_model (n : Int) (hn : U32 n) (h0 : n ≠ 0) :
   have e2 : ((31 - (Nat.log2 n.toNat : Int)) % 2^32).toNat = 31 - Nat.log2 n.toNat := by omega
   rw [e1, e2, xor31 ⟨_, hl⟩]
   c_leaf
+/-! ### core/draco_types.cc -/
+
+/-- `DataTypeLength` for the valid data types `DT_INT8 … DT_BOOL` (the model returns 0, the C++ −1 for the others) -/
+theorem DataTypeLength_eq_model (dt : Nat) (h1 : 1 ≤ dt) (h2 : dt ≤ 11) :
+    DataTypeLength dt = (dataTypeLength dt : Int) := by
+  unfold DataTypeLength dataTypeLength
+  have e : wrapI32 (dt : Int) = dt := wrapI32_id _ (by omega) (by omega)
+  simp only [e]
+  repeat' (first | omega | split)
+
+
 end Draco.Generated
